@@ -534,7 +534,7 @@ pub fn run(ctx: &Ctx) -> Report {
         r
     });
     if failure.is_none() {
-        let (st, f) = run_proptest(ctx, "events", 191, ctx.n(40_000, 1_000_000), strategy, |c: &ECase, st| check(c, st));
+        let (st, f) = run_proptest(ctx, "events", 191, ctx.n(40_000, 2_000_000), strategy, |c: &ECase, st| check(c, st));
         stats.merge(st);
         failure = f;
     }
